@@ -67,7 +67,8 @@ func cCb(sc c05Script) string {
 func c05Conn(sock string, stream []byte, chunks []int, halfClose bool, wait time.Duration) (reply []byte, got bool) {
 	c, err := net.Dial("unix", sock)
 	if err != nil {
-		panic(err)
+		// a server that no longer accepts (listen queue full, socket gone): no reply for this connection
+		return nil, false
 	}
 	defer c.Close()
 	uc := c.(*net.UnixConn)
